@@ -106,17 +106,40 @@ class Lockstep:
             if d:
                 st.diverged, st.why = True, "state" + d
                 st.model_post = ms      # (its exact phases are needed to recognise a float-boundary case)
+        if st.diverged and st.model_post is None:
+            try:
+                st.model_post = self.model_snapshot()      # (the model's own view, for the float-boundary filter)
+            except Exception:  # noqa: BLE001
+                pass
         self.steps.append(st)
         return st
 
 
 def is_float_ambiguous(step: Step) -> bool:
     """A divergence that may come from comparing two phases that differ by less than
-    1e-9 (model: exact rationals, implementation: rounded floats)."""
+    1e-9 (model: exact rationals, implementation: rounded floats).
+
+    (a) two phases of the IMPLEMENTATION's own snapshots (before / after the call: pulses and phase
+        references) are distinct and closer than 1e-9 mod 2pi, or one of them is within 1e-9 of the
+        wrap-around point;
+    (b) the phase-jump decision of this call: the phase of the newest pulse of a channel — as the
+        implementation scheduled it, or as the model did — is distinct from, and closer than 1e-9 to, the
+        phase of the pulse the implementation had last on that channel before the call (the model's
+        phases are exact, the implementation's are rounded: `equal` on one side, `different by an ulp`
+        on the other).  Only this pair is compared across the two sides: comparing every model phase
+        with every implementation phase would call every non-exact history ambiguous."""
     import math
 
+    two_pi = 2 * math.pi
+
+    def close(a, b) -> bool:
+        if a == b:
+            return False
+        d = abs(float(a - b)) % two_pi
+        return min(d, two_pi - d) < 1e-9
+
     phs = []
-    for snap in (step.pre, step.post, step.model_post):
+    for snap in (step.pre, step.post):
         if not snap:
             continue
         for c in snap["chans"]:
@@ -126,18 +149,29 @@ def is_float_ambiguous(step: Step) -> bool:
         for l in snap["refs"].values():
             for q in l:
                 phs.extend(Fraction(p) for _, p in q["tr"])
-    # (compared as exact rationals: the model's phases differ from the implementation's rounded ones by
-    # less than a float can show)
     phs = sorted(set(phs))
-    two_pi = 2 * math.pi
     for i, a in enumerate(phs):
         for b in phs[i + 1:]:
-            if a == b:
-                continue
-            d = abs(float(a - b)) % two_pi
-            d = min(d, two_pi - d)
-            if d < 1e-9:
+            if close(a, b):
                 return True
-    phs = [float(p) for p in phs]
-    # phases within 1e-9 of the wrap-around point
-    return any(0 < min(p, two_pi - p) < 1e-9 for p in phs)
+    if any(0 < min(float(p) % two_pi, two_pi - float(p) % two_pi) < 1e-9 for p in phs):
+        return True
+
+    # (b)
+    def last_pulse_phase(snap, name):
+        for c in (snap or {}).get("chans", []):
+            if c["name"] == name:
+                for s in reversed(c["slots"]):
+                    if s["k"] == "P" and not s.get("dd"):
+                        return Fraction(s["ph"])
+        return None
+
+    for c in (step.pre or {}).get("chans", []):
+        old = last_pulse_phase(step.pre, c["name"])
+        if old is None:
+            continue
+        for snap in (step.post, step.model_post):
+            new = last_pulse_phase(snap, c["name"])
+            if new is not None and close(old, new):
+                return True
+    return False
